@@ -107,6 +107,12 @@ def edited_schema_cases(ctx, work):
                     if rng.random() < 0.7:
                         r["info"][fid] = [rng.randrange(0, 9)]
             ctx.count("inputs_info_named_like_fixed_columns")
+            # a field declared Number=1 of which one record nevertheless carries two values (htslib accepts it): the schema
+            # must be sized from what the store holds, not from the declaration
+            for fid, typ, vals in (("ONE", "Integer", [7, 300]), ("ONS", "String", ["x", "y"])):
+                spec["infos"].append({"id": fid, "number": "1", "type": typ})
+                for i_, r in enumerate(spec["records"]):
+                    r["info"][fid] = vals if i_ == len(spec["records"]) // 2 else vals[:1]
         ctx.count("inputs_many_contigs" if k == 0 else "inputs")
         path = vcfgen.materialise(spec, pathlib.Path(work) / f"e{k}", "vcf.gz+tbi")
         icf = pathlib.Path(work) / f"e{k}.icf"
